@@ -43,6 +43,11 @@ M = [
     ('children', 'children.setter', 'pjplan/task.py', "            if ch is self or self in ch.all_children:\n                raise RuntimeError(f\"Task {self.id} is a child of {ch.id}. Can't make child a parent of its parent\")\n            _check_no_links_to_ancestors(ch, self)",
      "            if ch is self or self in ch.all_children:\n                raise RuntimeError(f\"Task {self.id} is a child of {ch.id}. Can't make child a parent of its parent\")", 'reason'),
     ('children', 'children.setter', 'pjplan/task.py', "            if len([v for v in value if v.__wbs is not None and v.__wbs != self.__wbs]) > 0:", "            if len([v for v in value if v.__wbs is not None and v.__wbs == self.__wbs]) > 0:", 'reason'),
+    ('children', '_ChildrenList.remove', 'pjplan/task.py', "        self.__parent.children = [t for t in self._list if t != task]\n        return True", "        self.__parent.children = [t for t in self._list if t != task]\n        return False", 'membership'),
+    ('children', '_ChildrenList.remove', 'pjplan/task.py', "        if task not in self._list:\n            return False\n        self.__parent.children = [t for t in self._list if t != task]", "        self.__parent.children = [t for t in self._list if t != task]", 'not-listed'),
+    ('children', 'WBS.roots.setter', 'pjplan/wbs.py', "        self.__root.children = value", "        self.__root.children = []", 'list-of-root-tasks'),
+    ('children', 'WBS.__remove', 'pjplan/wbs.py', "            if self.__remove(task_to_remove, ch):\n                return True", "            self.__remove(task_to_remove, ch)", 'returns-whether'),
+    ('children', 'WBS.remove', 'pjplan/wbs.py', "        return self.__remove(task, self.__root)", "        self.__remove(task, self.__root)\n        return True", 'member'),
     ('closure', 'get_children', 'pjplan/task.py', "                yield ch\n                yield from get_children(ch)", "                yield from get_children(ch)\n                yield ch", 'depth-first'),
     ('closure', 'get_parent', 'pjplan/task.py', "                yield t\n                yield from get_parent(t.parent)", "                yield t", 'ancestors'),
     ('closure', 'get_predecessor', 'pjplan/task.py', "            for pr in t.predecessors:\n                yield pr\n                yield from get_predecessor(pr)", "            for pr in t.predecessors:\n                yield from get_predecessor(pr)", 'every-transitive'),
